@@ -44,6 +44,9 @@ def run_property(pid: str, repo: str, tier: str, evidence_dir: str | None = None
         mod = _prop_module(pid)
         an = Analysis(repo)
         mod.check(an)
+        from .props.common import wellformed_for
+
+        wellformed_for(an, pid)
         liveness = []
         if hasattr(mod, "liveness"):
             liveness = mod.liveness(os.path.join(VERIF, "fixtures"))
